@@ -632,7 +632,21 @@ public:
 
   void rename(const variable_vector_t &from,
               const variable_vector_t &to) override {
-    CRAB_WARN(domain_name(), "::rename not implemented");
+    if (is_bottom() || is_top()) {
+      return;
+    }
+    if (from.size() != to.size()) {
+      CRAB_ERROR(domain_name(), "::rename with input vectors of different sizes");
+    }
+    // rename each variable together with its ghost variables
+    variable_vector_t base_from(from), base_to(to);
+    for (unsigned i = 0, sz = from.size(); i < sz; ++i) {
+      for (auto coefficient : crab_domain_params_man::get().coefficients()) {
+        base_from.push_back(get_ghost_var(from[i], coefficient));
+        base_to.push_back(get_ghost_var(to[i], coefficient));
+      }
+    }
+    m_base_absval.rename(base_from, base_to);
   }
 
   void expand(const variable_t &var, const variable_t &new_var) override {
